@@ -309,7 +309,8 @@ fn if_case_primitive_fn<S: HasComponent<Component>>(
         if let token::Value::CommandRef(command_ref) = &token.value() {
             let tag = input.commands_map().get_tag(command_ref);
             if tag == Some(input.state().component().tags.or_tag) && depth == 0 {
-                cases_left_to_skip -= 1;
+                // A negative case number never matches; it must not underflow either.
+                cases_left_to_skip = cases_left_to_skip.saturating_sub(1);
                 if cases_left_to_skip == 0 {
                     push_branch(
                         input,
